@@ -205,6 +205,12 @@ class World:
             'LOG_LEVEL': 'critical',
             'PREFERRED_URL_SCHEME': 'http',
             'JWT_SECRET_KEY': 'jwt.secret.for.the.verification.world.0123456789',
+            # flask_jwt_extended stamps and checks its tokens against the real clock (default life time: 15 minutes). A
+            # bearer token obtained when a worker starts must stay valid for the whole exploration, however long it runs:
+            # the real clock is not one of the explored dimensions (C17 thorough runs longer than 15 minutes and operations
+            # sent with a bearer token began to answer 401 part-way through)
+            'JWT_ACCESS_TOKEN_EXPIRES': datetime.timedelta(days=3650),
+            'JWT_REFRESH_TOKEN_EXPIRES': datetime.timedelta(days=3650),
         }
         self.app = create_app(config=config, instance_path=str(self.tmp / 'instance'),
                               create_default_user=False, wss=False)
